@@ -67,7 +67,6 @@ package uu
 // encoding of src; neither src nor the old contents of dst are modified.
 //@ func AppendEncode(dst, src) (res)
 //@   props C15
-//@   requires sizes: len(src) <= 72057594037927936 && len(dst) <= 72057594037927936
 //@   requires spare_capacity_of_dst_does_not_overlap_src: disjointSpare(dst, src)
 //@   ensures length: len(res) == len(dst) + encLen(len(src))
 //@   ensures prefix: forall(q, 0 <= q && q < len(dst), res[q] == old(dst[q]))
